@@ -485,7 +485,7 @@ func fingerprintChain(p *Prog, r *Report, ru *Rule, fn *ssa.Function, depth int)
 			ru.Bad(c, posOf(call), "the pin hashes with %s, curl's sha256// needs SHA-256", hc.Hash)
 		case !okSerial(hc.Serial):
 			ru.Bad(c, posOf(call), "the pin hashes %s; curl pins the DER SubjectPublicKeyInfo (MarshalPKIXPublicKey(PublicKey) or RawSubjectPublicKeyInfo), not the certificate or another field", hc.Serial)
-		case !isParamOrLoad(fn, hc.Cert):
+		case !isParamOrLoad(fn, hc.Cert) && !ownLeafOf(fn, hc.Cert):
 			ru.Bad(c, posOf(call), "the hashed key does not belong to the certificate passed in")
 		default:
 			ru.OK(c, posOf(call), "%s", hc)
@@ -511,6 +511,43 @@ func isParamOrLoad(fn *ssa.Function, v ssa.Value) bool {
 		}
 	}
 	return false
+}
+
+// ownLeafOf: v is, whichever way it was come by, the leaf of the certificate
+// fn was given: its Leaf field, or the parse of its own first DER block.
+func ownLeafOf(fn *ssa.Function, v ssa.Value) bool {
+	ls := phiLeaves(v)
+	if 0 == len(ls) {
+		return false
+	}
+	for _, l := range ls {
+		x := stripConv(resolveCell(l.V), false)
+		if fv, base := loadedField(x); nil != fv && "Leaf" == fv.Name() && isParamOrLoad(fn, base) {
+			continue
+		}
+		ex, ok := x.(*ssa.Extract)
+		if !ok || 0 != ex.Index {
+			return false
+		}
+		call, ok := ex.Tuple.(*ssa.Call)
+		if !ok || "crypto/x509.ParseCertificate" != calleeName(call.Common()) {
+			return false
+		}
+		okk := false
+		if u, ok := call.Common().Args[0].(*ssa.UnOp); ok && token.MUL == u.Op {
+			if ia, ok := u.X.(*ssa.IndexAddr); ok {
+				if k, ok := constInt(ia.Index); ok && 0 == k {
+					if f2, b2 := loadedField(ia.X); nil != f2 && "Certificate" == f2.Name() && isParamOrLoad(fn, b2) {
+						okk = true
+					}
+				}
+			}
+		}
+		if !okk {
+			return false
+		}
+	}
+	return true
 }
 
 // checkC05Server: hsrv side.
